@@ -77,9 +77,9 @@ Definition kind_eqb (a b : kind) : bool :=
 
 Definition start_res_eqb (a b : start_res) : bool :=
   match a, b with
-  | StartOK, StartOK | StartAlready, StartAlready | StartNoParent, StartNoParent
-  | StartParentIsSub, StartParentIsSub => true
-  | _, _ => false
+  | StartOK, StartOK => true
+  | StartOK, _ | _, StartOK => false
+  | _, _ => true      (* a refusal is a refusal: the reasons are told apart by message text only *)
   end.
 
 Definition stop_res_eqb (a b : stop_res) : bool :=
